@@ -59,6 +59,10 @@ CHECKS = {
             "Runtime monitor at the API boundary: pairs of real nodes over the protocol-version x key-size x compression x label x time-format matrix (covering subset in quick, all 120 cells in thorough); user payloads of boundary sizes through the four user paths, push/pull user state in both directions, membership fields after join and after an update, ping and ack payload; the oracle is byte equality of what the sender passed in with what the receiver's delegate / table holds, exactly once, nothing extra; a burst while the receiver's delegate is busy checks that queued message buffers survive later packets.",
             "Trusts only the simulated loss-free network and the Go runtime; the oracle-side codec is not on the comparison path.",
             "end-to-end byte-equality monitor over the configuration matrix", "DESIGN.md §3 C12"),
+    "C11": ("E2-rig + real receiver (tap on the innermost transport)", "exploration",
+            "Runtime monitor: a contract-respecting delegate hands out uniquely tagged user broadcasts in hostile fill patterns (more than 255 tiny messages, exact fill of the offered limit, equal lengths) and hundreds of membership broadcasts with large metadata are queued; (1) budget: every packet seen at the sender's innermost transport (after label wrapping) is compared with UDPBufferSize; (2) conservation: multiset of messages handed out == multiset delivered to receivers' delegates (real node) or unpacked by the oracle-side codec (fake PMax<5 peer), every packet unpacks without truncation, every member claim packed for the receiver shows up in its event log.",
+            "Trusts the loss-free simulated network and, for the fake no-checksum peer only, the oracle-side codec.",
+            "wire-size monitor + hand-out/delivery conservation check", "DESIGN.md §3 C11"),
 }
 
 NOT_YET = "check not built yet in this round (design in DESIGN.md §3); not claimed until its monitor runs clean on the unchanged tree"
@@ -95,7 +99,7 @@ def main():
         },
         "engines": [
             {"name": "E1-simnet", "path": "harness/simnet.go", "serves_properties": ["C02", "C03", "C04", "C05", "C07", "C08", "C12", "C17"], "kind_free_text": "real Memberlist instances on an in-memory transport inside a testing/synctest bubble (virtual time), with wire tap, fault scripts and fake peers"},
-            {"name": "E2-model-lockstep", "path": "harness/", "serves_properties": ["C01", "C02", "C06", "C08", "C10", "C16", "C17", "C18"], "kind_free_text": "PRNG operation sequences against one object with an executable reference model evaluated in lock-step"},
+            {"name": "E2-model-lockstep", "path": "harness/", "serves_properties": ["C01", "C02", "C06", "C08", "C10", "C11", "C16", "C17", "C18"], "kind_free_text": "PRNG operation sequences against one object with an executable reference model evaluated in lock-step"},
         ],
         "checks": checks,
         "not_applicable": [{"property_id": p, "reason": NOT_YET} for p in ALL if p not in CHECKS],
